@@ -243,6 +243,10 @@ Proj == [pool |-> pool, orph |-> orph,
          recon |-> recon, conf |-> conf,
          live |-> [h \in Hashes |-> {p \in Peers : Live(trk[h][p])}],
          ahW |-> AlreadyHave("W", TRUE),
+         \* AlreadyHaveTx asked with the TXID T (what a txid-relay peer's inv or an orphan's parent lookup would ask): the orphanage is only
+         \* consulted with the hash "cast" to a wtxid (so only the stripped copy matches), the mempool by txid
+         ahT |-> IF Masked THEN "na"
+                 ELSE IF "Vstrip" \in orph \/ "T" \in rej \cup recon \cup conf \/ (\E t \in pool : TxidOf(t) = "T") THEN "yes" ELSE "no",
          \* not compared (the adapter skips it): makes the projection injective, so that the emitted graph is the state graph
          hid |-> [chain |-> chain, oann |-> oann, trk |-> trk, rage |-> rage, n |-> n, rejT |-> "T" \in rej]]
 Emit == VFEdge(Proj, lastAct', lastRes', Proj')
